@@ -20,6 +20,8 @@ HDR = ("From Coq Require Import List NArith ZArith Bool.\n"
        "From RB Require Import Base.Result Model.Buffer Model.Font Model.Morx Model.MorxPipe Corr.MorxC.\n"
        "Import ListNotations.\nLocal Open Scope N_scope.\n")
 
+SLOW_STREAM = {}
+SLOW = []   # shapes abandoned by the harness watchdog (recorded in the evidence, not a C17 predicate)
 KINDS = ["rearrangement", "contextual", "ligature", "noncontextual", "insertion"]
 DIRS = {"ltr": "LTR", "rtl": "RTL", "ttb": "TTB", "btt": "BTT"}
 
@@ -65,6 +67,10 @@ def run_gen(binp, seed, n, texts, stream, first=0):
     cases = {}
     generic = []
     summary = None
+    for l in out.splitlines():
+        if l.startswith("slow "):
+            SLOW.append(l)
+            SLOW_STREAM[l] = stream
     for line in out.splitlines():
         if line.startswith("font "):
             _, i, term = line.split(" ", 2)
@@ -91,8 +97,10 @@ def dump_font(binp, seed, stream, i):
     return d
 
 
-def shape_b64(binp, b64, req):
-    rc, out, err = C.run_rbv(binp, ["c17", "bytes", "--req", req], stdin=b64)
+def shape_b64(binp, b64, req, timeout=10):
+    rc, out, err = C.run_rbv(binp, ["c17", "bytes", "--req", req], stdin=b64, timeout=timeout)
+    if rc == 124:
+        return "panic timeout: no answer within %d s" % timeout
     return out.strip()
 
 
@@ -197,13 +205,17 @@ def oracles(chk, binp, n):
 
 
 def corpus_cases():
-    """Regression cases of corpus/C17-*.json: list of (file, font, request)."""
+    """Regression cases of corpus/C17-*.json: (file cases on corpus fonts, cases carrying their own font bytes)."""
     res = []
+    emb = []
     for p in sorted(glob.glob(os.path.join(C.CORPUS, "C17-*.json"))):
         body = json.load(open(p))
         for c in body.get("cases", []):
-            res.append((os.path.relpath(p, C.VERIF), c["font"], c["request"]))
-    return res
+            if "font_base64" in c:
+                emb.append((os.path.relpath(p, C.VERIF), c))
+            else:
+                res.append((os.path.relpath(p, C.VERIF), c["font"], c["request"]))
+    return res, emb
 
 
 def run_cases(binp, cs):
@@ -221,6 +233,21 @@ def run_cases(binp, cs):
     if rc != 0 or n != len(cs):
         fails.append({"what": "corpus-cases-crashed", "stderr": err[-500:], "answered": n, "asked": len(cs)})
     return fails, n
+
+
+def run_embedded_cases(binp, emb):
+    """cases with their own font bytes, each under its time limit"""
+    fails = []
+    for path, c in emb:
+        limit = c.get("max_ms", 4000) / 1000.0
+        rc, out, err = C.run_rbv(binp, ["c17", "bytes", "--req", c["request"]], stdin=c["font_base64"], timeout=limit + 1.0)
+        out = out.strip()
+        if rc == 124:
+            fails.append({"what": "corpus-regression-case", "corpus_file": path, "request": c["request"], "font_base64": c["font_base64"],
+                          "why": "shaping did not finish within %d ms" % c.get("max_ms", 4000)})
+        elif not out.startswith("ok") or "generic-fail" in out:
+            fails.append({"what": "corpus-regression-case", "corpus_file": path, "request": c["request"], "font_base64": c["font_base64"], "why": out[:300]})
+    return fails, len(emb)
 
 
 def corpus_random(chk, binp, per_font):
@@ -257,13 +284,12 @@ def run(chk):
         return
     fails = []
     # ---- regression cases first
-    cc = corpus_cases()
+    cc, emb = corpus_cases()
     f0, n0 = run_cases(binp, cc)
-    for f in f0:
-        known = [k for k in chk.known if k["cls"] and k["cls"] in json.dumps(f)]
-        fails.append(f)
-    chk.add_eval(n0, n0)
-    chk.note("corpus_regression_cases", {"run": n0, "failed": len(f0)})
+    f0e, n0e = run_embedded_cases(binp, emb)
+    fails += f0 + f0e
+    chk.add_eval(n0 + n0e, n0 + n0e)
+    chk.note("corpus_regression_cases", {"run": n0 + n0e, "failed": len(f0) + len(f0e)})
     # ---- oracles
     f1, ostats = oracles(chk, binp, 160 if thorough else 48)
     fails += f1
@@ -284,6 +310,12 @@ def run(chk):
     gm, nm = generic_streams(chk, binp, 3000 if thorough else 600, 8)
     chk.add_eval(nm, 0)
     chk.note("malformed_stream_shapes", nm)
+    chk.note("shapes_abandoned_by_watchdog_4s", SLOW[:12])
+    for line in SLOW:
+        m = re.match(r"slow (\d+) (\d+) (\S+) :: (.*)$", line)
+        if m:
+            fails.append({"what": "generated-font-shaping-too-slow", "font": int(m.group(1)), "text": int(m.group(2)),
+                          "why": "no answer within the watchdog limit (" + m.group(3) + ")", "request": m.group(4), "stream": SLOW_STREAM.get(line, "mal")})
     for g in gm:
         g2 = dict(g)
         g2["what"] = "generated-font-generic-predicate"
@@ -341,6 +373,16 @@ def replay(chk, path):
     print("kind:", body.get("kind"))
     req = body.get("request")
     rcode = 0
+    if "cases" in body:   # a corpus file
+        cs = [("replay", c["font"], c["request"]) for c in body["cases"] if "font" in c]
+        emb = [("replay", c) for c in body["cases"] if "font_base64" in c]
+        f1, _ = run_cases(binp, cs) if cs else ([], 0)
+        f2, _ = run_embedded_cases(binp, emb)
+        for f in f1 + f2:
+            print("STILL FAILING:", {k: v for k, v in f.items() if k != "font_base64"})
+        if not (f1 + f2):
+            print("all %d case(s) pass now" % (len(cs) + len(emb)))
+        return 1 if (f1 + f2) else 0
     if body.get("font_base64") and req:
         out = shape_b64(binp, body["font_base64"], req)
         print("request:", req)
@@ -358,7 +400,7 @@ def replay(chk, path):
             rcode = 1
         if body.get("kind", "").startswith("oracle"):
             print("expected (oracle):", body.get("detail"))
-    elif body.get("font") and req:
+    elif body.get("font") and isinstance(body.get("font"), str) and req:
         fails, n = run_cases(binp, [("replay", body["font"], req)])
         for f in fails:
             print("STILL FAILING:", f)
